@@ -29,6 +29,7 @@ var (
 	dir     = flag.String("dir", "", "scratch copy of the repository (never /repo)")
 	pkgsArg = flag.String("pkgs", "", "comma separated package dirs relative to -dir")
 	lvl2Arg = flag.String("level2", "", "comma separated file paths (relative to -dir) that get a yield before every statement")
+	lvl3Arg = flag.String("level3", "", "comma separated file paths (relative to -dir) where the field reads that fill a composite literal are hoisted into separate statements with a yield between them (the reads of one statement may legally interleave with another goroutine's writes)")
 	osArg   = flag.String("osfiles", "pkg/radius/accounting.go", "files whose package-os calls are redirected to the simulated FS")
 )
 
@@ -38,6 +39,7 @@ type inst struct {
 	file   *ast.File
 	rel    string
 	level2 bool
+	level3 bool
 	osSwap bool
 	used   bool
 	tmp    int
@@ -200,12 +202,81 @@ func (in *inst) funcLits(n ast.Node) {
 func (in *inst) list(list []ast.Stmt) []ast.Stmt {
 	var out []ast.Stmt
 	for _, st := range list {
+		if in.level3 {
+			out = append(out, in.hoistOperands(st)...)
+		}
 		pre, s2, post := in.stmt(st)
 		out = append(out, pre...)
 		out = append(out, s2)
 		out = append(out, post...)
 	}
 	return out
+}
+
+// hoistOperands (level 3): in a simple statement, the field reads x.F (x a local identifier)
+// that are the values of a keyed composite literal with at least two such reads are moved into
+// temporaries defined before the statement, with a yield after each. Go leaves the order of such
+// operand reads unspecified and gives no atomicity to a statement, so every interleaving this
+// opens is one a real execution may show. Only literals reached from the statement through
+// call arguments, &, parentheses and enclosing literals are touched (nothing behind && or ||,
+// an index, a conversion of a possibly nil base, or a function literal).
+func (in *inst) hoistOperands(st ast.Stmt) []ast.Stmt {
+	var roots []ast.Expr
+	switch v := st.(type) {
+	case *ast.ReturnStmt:
+		roots = v.Results
+	case *ast.ExprStmt:
+		roots = []ast.Expr{v.X}
+	case *ast.AssignStmt:
+		roots = v.Rhs
+	default:
+		return nil
+	}
+	var pre []ast.Stmt
+	var walk func(e ast.Expr)
+	walk = func(e ast.Expr) {
+		switch v := e.(type) {
+		case *ast.ParenExpr:
+			walk(v.X)
+		case *ast.UnaryExpr:
+			if v.Op == token.AND {
+				walk(v.X)
+			}
+		case *ast.CallExpr:
+			for _, a := range v.Args {
+				walk(a)
+			}
+		case *ast.CompositeLit:
+			var reads []*ast.KeyValueExpr
+			for _, el := range v.Elts {
+				kv, ok := el.(*ast.KeyValueExpr)
+				if !ok {
+					continue
+				}
+				if se, ok := kv.Value.(*ast.SelectorExpr); ok {
+					if _, isID := se.X.(*ast.Ident); isID {
+						if sl := in.info.Selections[se]; sl != nil && sl.Kind() == types.FieldVal {
+							reads = append(reads, kv)
+							continue
+						}
+					}
+				}
+				walk(kv.Value)
+			}
+			if len(reads) < 2 {
+				return
+			}
+			for _, kv := range reads {
+				t := in.fresh("r")
+				pre = append(pre, define(t, kv.Value), in.yieldStmt(kv.Value.Pos()))
+				kv.Value = ast.NewIdent(t)
+			}
+		}
+	}
+	for _, r := range roots {
+		walk(r)
+	}
+	return pre
 }
 
 // stmt rewrites one statement; it returns statements to put before and after.
@@ -734,6 +805,12 @@ func main() {
 		fmt.Fprintln(os.Stderr, "instrument: refusing to run on /repo")
 		os.Exit(2)
 	}
+	level3 := map[string]bool{}
+	for _, f := range strings.Split(*lvl3Arg, ",") {
+		if f != "" {
+			level3[f] = true
+		}
+	}
 	level2 := map[string]bool{}
 	for _, f := range strings.Split(*lvl2Arg, ",") {
 		if f != "" {
@@ -795,7 +872,7 @@ func main() {
 			if strings.HasPrefix(filepath.Base(rel), "zz_verif") {
 				continue
 			}
-			in := &inst{fset: p.Fset, info: p.TypesInfo, file: x.f, rel: rel, level2: level2[rel], osSwap: osFiles[rel]}
+			in := &inst{fset: p.Fset, info: p.TypesInfo, file: x.f, rel: rel, level2: level2[rel], level3: level3[rel], osSwap: osFiles[rel]}
 			in.run()
 			var buf bytes.Buffer
 			if err := format.Node(&buf, p.Fset, x.f); err != nil {
